@@ -23,9 +23,13 @@ type point struct {
 }
 
 // Choose returns a value in [0,n); all alternatives are free of deviation cost.
+//
+//go:norace
 func (ch *Chooser) Choose(n int, label string) int { return ch.ChooseCost(n, nil, label) }
 
 // ChooseDev returns a value in [0,n); every alternative other than 0 costs one deviation.
+//
+//go:norace
 func (ch *Chooser) ChooseDev(n int, label string) int {
 	costs := make([]int, n)
 	for i := 1; i < n; i++ {
@@ -35,6 +39,9 @@ func (ch *Chooser) ChooseDev(n int, label string) int {
 }
 
 // ChooseCost returns a value in [0,n); alternative i costs costs[i] deviations.
+// (norace: in race-mode scheduling it is called from different threads by design.)
+//
+//go:norace
 func (ch *Chooser) ChooseCost(n int, costs []int, label string) int {
 	if n <= 0 {
 		panic("mc: Choose with n<=0 at " + label)
